@@ -363,19 +363,46 @@ func ruleSIB3(w *World) []Ob {
 				return
 			}
 			f := c.Common().StaticCallee()
-			if f == nil || d.InModule(f) || classifyExternal(f) != EffWriteGiven || len(c.Common().Args) < 2 {
-				return
-			}
 			var rowv ssa.Value
-			for _, a := range c.Common().Args[1:] {
-				if elems, ok := variadicElems(a); ok && len(elems) == 1 {
-					rowv = elems[0]
-				} else if b, ok := a.Type().Underlying().(*types.Basic); ok && b.Info()&types.IsString != 0 {
-					rowv = a
+			if f == nil && c.Common().IsInvoke() && len(c.Common().Args) == 1 && (c.Common().Method.Name() == "Write" || c.Common().Method.Name() == "WriteString") {
+				// w.Write(row) on the writer itself
+				rowv = c.Common().Args[0]
+			} else {
+				if f == nil || d.InModule(f) || classifyExternal(f) != EffWriteGiven || len(c.Common().Args) < 2 {
+					return
+				}
+				for _, a := range c.Common().Args[1:] {
+					if elems, ok := variadicElems(a); ok && len(elems) == 1 {
+						rowv = elems[0]
+					} else if b, ok := a.Type().Underlying().(*types.Basic); ok && b.Info()&types.IsString != 0 {
+						rowv = a
+					} else if isByteSlice(a.Type()) {
+						rowv = a
+					}
 				}
 			}
 			if rowv == nil {
 				return
+			}
+			// the row kept in a field / variable just filled in this block (x.row = appendRow(x.row[:0], n); w.Write(x.row))
+			if ld, isL := isLoad(stripConv(rowv)); isL {
+				// … or behind a pointer handed down: *row = appendRow((*row)[:0], n); w.Write(*row)
+				if _, isFA := ld.(*ssa.FieldAddr); !isFA {
+					for _, in2 := range c.Block().Instrs[:instrIndex(c)] {
+						if st, isSt := in2.(*ssa.Store); isSt && st.Addr == ld {
+							rowv = st.Val
+						}
+					}
+				}
+				if fa, isFA := ld.(*ssa.FieldAddr); isFA {
+					for _, in2 := range c.Block().Instrs[:instrIndex(c)] {
+						if st, isSt := in2.(*ssa.Store); isSt {
+							if f2, ok := st.Addr.(*ssa.FieldAddr); ok && f2.Field == fa.Field && sameVar(f2.X, fa.X) {
+								rowv = st.Val
+							}
+						}
+					}
+				}
 			}
 			ev := newCaseEval(d, cur)
 			cs := ev.cases(rowv, 0)
@@ -392,7 +419,7 @@ func ruleSIB3(w *World) []Ob {
 			var problems []string
 			// the row must be written as data: handed to a printf-style function as the *format*, every '%' in a
 			// node name or branch string is read as a verb
-			if strings.HasSuffix(f.Name(), "f") && f.Pkg != nil && f.Pkg.Pkg.Path() == "fmt" && len(c.Common().Args) >= 2 && c.Common().Args[1] == rowv {
+			if f != nil && strings.HasSuffix(f.Name(), "f") && f.Pkg != nil && f.Pkg.Pkg.Path() == "fmt" && len(c.Common().Args) >= 2 && c.Common().Args[1] == rowv {
 				if _, isConst := rowv.(*ssa.Const); !isConst {
 					problems = append(problems, "the row is passed to "+f.Name()+" as its format string: a '%' in a node name or branch string is interpreted as a formatting verb")
 				}
@@ -417,8 +444,18 @@ func ruleSIB3(w *World) []Ob {
 	}
 	// rows written piece by piece (branch, blank, name, newline as separate writes, directly or through a helper):
 	// the concatenation along every path up to the children loop must be the row term
+	// only code the text printers reach prints rows: a traversal that writes names into a builder for another purpose
+	// (a cache key, a digest) is not a printer
+	var textRoots []*ssa.Function
 	for _, fn := range libFuncs(d) {
-		if rowWriters[fn] || fn.Blocks == nil {
+		rn := recvTypeName(outermost(fn))
+		if strings.Contains(rn, "defaultSpreader") || strings.Contains(rn, "defaultGrowSpreader") || strings.Contains(rn, "colorizeSpreader") {
+			textRoots = append(textRoots, fn)
+		}
+	}
+	textReach := reachableFrom(d, textRoots, nil)
+	for _, fn := range libFuncs(d) {
+		if rowWriters[fn] || fn.Blocks == nil || !textReach[fn] {
 			continue
 		}
 		var cur *ssa.Parameter
@@ -1342,7 +1379,11 @@ func ruleC01SEL(w *World) []Ob {
 			// a defensive `false` for a parent that (impossibly) has no children is not a different decision
 			emptyGuard := false
 			for a, pol := range c.conds {
-				if pol && strings.Contains(a, "len(children(parent(n)))") && (strings.HasSuffix(a, "==0)") || strings.HasSuffix(a, "<1)")) {
+				if pol && strings.Contains(a, "len(children(parent(n)))") && (strings.HasSuffix(a, "==0)") || strings.HasSuffix(a, "<1)") || strings.HasSuffix(a, "-1)<0)") || strings.HasSuffix(a, "-1)==-1)")) {
+					emptyGuard = true
+				}
+				// spelled the other way round: !(len-1 >= 0), !(len > 0)
+				if !pol && strings.Contains(a, "len(children(parent(n)))") && (strings.HasSuffix(a, "-1)>=0)") || strings.HasSuffix(a, ">0)") || strings.HasSuffix(a, ">=1)") || strings.HasSuffix(a, "!=0)")) {
 					emptyGuard = true
 				}
 			}
@@ -1759,11 +1800,18 @@ func ruleSIB5(w *World) []Ob {
 		var rootCell0 ssa.Value
 		rootWeb := map[ssa.Value]bool{}
 		appendRoots := false
-		if isRootCall == nil {
+		var rootTest ssa.Value
+		if isRootCall != nil {
+			rootTest = isRootCall
+		} else if dg != nil && dg.rootFlag != nil {
+			// the assembler object asks isRoot() itself and reports the answer
+			rootTest = dg.rootFlag
+		}
+		if rootTest == nil {
 			why = "the node is never asked isRoot()"
 		} else {
 			var rootSide *ssa.BasicBlock
-			for _, r := range *isRootCall.Referrers() {
+			for _, r := range *rootTest.Referrers() {
 				if iff, ok := r.(*ssa.If); ok {
 					rootSide = iff.Block().Succs[0]
 				}
@@ -2231,6 +2279,7 @@ type sib5Delegate struct {
 	nilCheck  bool   // a nil stack field ends in a non-nil error
 	attach    bool   // dfs(stack field, node) with its failure reported
 	why       string // a delegate's error does not end the operation
+	rootFlag  ssa.Value // a bool result of the delegate call that is true exactly when the node is a root
 }
 
 // sib5Delegates examines the module methods that the line loop hands the current node to and that keep the open stack
@@ -2301,7 +2350,14 @@ func sib5Delegates(p *Prog, nc *nilCtx, fn *ssa.Function, node ssa.Value, scan *
 			switch x := in2.(type) {
 			case *ssa.Store:
 				if fa, ok := x.Addr.(*ssa.FieldAddr); ok && fa.Field == fi && sameVar(fa.X, recv) {
-					if sc, ok := x.Val.(*ssa.Call); ok && sc.Common().StaticCallee() != nil && fname(sc.Common().StaticCallee()) == "newStack" {
+					sc, ok := x.Val.(*ssa.Call)
+					// a.open = newStack().push(node): push returns the stack it was called on
+					if ok && sc.Common().StaticCallee() != nil && fname(sc.Common().StaticCallee()) == "push" && len(sc.Common().Args) == 2 && sameVar(sc.Common().Args[1], hNode) {
+						if inner, isC := sc.Common().Args[0].(*ssa.Call); isC && inner.Common().StaticCallee() != nil && fname(inner.Common().StaticCallee()) == "newStack" {
+							sc = inner
+						}
+					}
+					if ok && sc.Common().StaticCallee() != nil && fname(sc.Common().StaticCallee()) == "newStack" {
 						onRoot := calledOnRootSide
 						for _, g := range guardsOf(x.Block()) {
 							cc, pol := flattenCond(g.Cond, g.Pol)
@@ -2346,6 +2402,49 @@ func sib5Delegates(p *Prog, nc *nilCtx, fn *ssa.Function, node ssa.Value, scan *
 		if isErrorType(c.Type()) {
 			if w := errorExit(p, nc, c, scan.Block()); w != "" && d.why == "" {
 				d.why = "the error of " + fname(h) + " does not end the operation: " + w
+			}
+		}
+		if tup, isTup := c.Type().(*types.Tuple); isTup && tup.Len() >= 2 && isErrorType(tup.At(tup.Len()-1).Type()) {
+			if ev := siblingExtract(c, tup.Len()-1); ev == nil {
+				if d.why == "" {
+					d.why = "the error of " + fname(h) + " is discarded"
+				}
+			} else if w := errorExit(p, nc, ev, scan.Block()); w != "" && d.why == "" {
+				d.why = "the error of " + fname(h) + " does not end the operation: " + w
+			}
+			// a bool result that reports "this node opened a new root": true exactly on the isRoot side of the delegate
+			for i := 0; i < tup.Len()-1; i++ {
+				if b, isB := tup.At(i).Type().Underlying().(*types.Basic); !isB || b.Kind() != types.Bool {
+					continue
+				}
+				exact, n := true, 0
+				allInstrs(h, func(in2 ssa.Instruction) {
+					r, isR := in2.(*ssa.Return)
+					if !isR || i >= len(rr(r)) {
+						return
+					}
+					n++
+					bv, isC := constBool(rr(r)[i])
+					if !isC {
+						exact = false
+						return
+					}
+					onRoot := false
+					for _, g := range guardsOf(r.Block()) {
+						cc, pol := flattenCond(g.Cond, g.Pol)
+						if rc, ok := cc.(*ssa.Call); ok && pol && rc.Common().StaticCallee() != nil && fname(rc.Common().StaticCallee()) == "isRoot" && sameVar(rc.Common().Args[0], hNode) {
+							onRoot = true
+						}
+					}
+					if bv != onRoot {
+						exact = false
+					}
+				})
+				if exact && n > 0 {
+					if ex := siblingExtract(c, i); ex != nil {
+						d.rootFlag = ex
+					}
+				}
 			}
 		}
 	})
